@@ -37,6 +37,7 @@ def run(ctx):
     from rules import mergerules as mr
     mr.rule_no_overwrite_in_loop(ctx, "R04.1c", ["lef21::read::"], floor=10)
     lr.rule_text_verbatim(ctx, "R04.5")
+    mr.rule_fresh_buffers(ctx, "R04.1d", ["lef21::read::"])
     parsers = [f for f in F.fns.values() if f.id.startswith(PARSER) and f.kind != "Closure" and "LefParser" in f.name and not f.derived]
     n_steps = 0
     n_fields = 0
@@ -114,6 +115,28 @@ def run(ctx):
                 else:
                     ctx.violation("R04.2", key, "%s matches an enumerated word without upper-casing it: mixed-case LEF keywords are rejected" % f.short, b.site(bi), key)
     ctx.floor("R04.2", "enum_match_sites", n_m, 1)
+    # a keyword recognised by comparing the token text with the keyword's canonical (upper-case) spelling
+    n_cmp = 0
+    for f in F.fns.values():
+        if not f.id.startswith(PARSER) or f.kind == "Closure":
+            continue
+        b = Body(f)
+        for bi, t in b.calls():
+            n = callee_name(t) or ""
+            if not re.search(r"PartialEq.*::(eq|ne)$", n) or len(t["args"]) != 2:
+                continue
+            vs = [flow.vias_of(fl.deps_operand(f.id, a)) for a in t["args"]]
+            kw = [any(x.endswith("::to_str") or x.endswith("EnumStr>::to_str") for x in v) for v in vs]
+            if not any(kw) or all(kw):
+                continue
+            n_cmp += 1
+            other = vs[1] if kw[0] else vs[0]
+            key = "%s/eq-keyword" % f.short
+            if any(x.endswith("to_ascii_uppercase") or x.endswith("to_uppercase") or x.endswith("eq_ignore_ascii_case") for x in other):
+                ctx.ok("R04.2", key, "text upper-cased before the comparison")
+            else:
+                ctx.violation("R04.2", key, "%s recognises a keyword by comparing the raw token text with the keyword's upper-case spelling: `EndExt` / `endext` are not recognised (LEF keywords are case-insensitive)" % f.short, b.site(bi), key)
+    ctx.count("keyword_text_comparisons", n_cmp)
 
     # ---- R04.3 exact decimals
     nums = [f for f in parsers if (payload_ty(f.output) or {}).get("s", "").endswith("Decimal") and len(f.inputs) == 1]
